@@ -485,6 +485,7 @@ def generate(repo, contracts, twin=False, only=None, force_degrade=None):
         if modpath == "custom_packet":
             items = rules.prepare_custom_packet(items, ctx)
         items = rules.expand_macros(items, ctx)
+        items = rules.expand_derive_default(items, ctx)
         items = rules.flatten_fci(items, ctx, modpath)
         items = rules.split_iterators(items, ctx)
         assign_keys(items, modpath)
